@@ -63,14 +63,16 @@ pub struct Recorder {
   pub probes: u32,
   /// optional token captured by the three callbacks (C17)
   pub token: Option<Token>,
+  /// virtual time the subscriber spends inside its next callback, per item index (slow consumer)
+  pub next_delays_ns: Arc<Vec<u64>>,
 }
 
 impl Recorder {
   pub fn new() -> Recorder {
-    Recorder { log: Arc::new(Mutex::new(Vec::new())), probes: 0, token: None }
+    Recorder { log: Arc::new(Mutex::new(Vec::new())), probes: 0, token: None, next_delays_ns: Arc::new(Vec::new()) }
   }
   pub fn with_probes(n: u32) -> Recorder {
-    Recorder { log: Arc::new(Mutex::new(Vec::new())), probes: n, token: None }
+    Recorder { log: Arc::new(Mutex::new(Vec::new())), probes: n, token: None, next_delays_ns: Arc::new(Vec::new()) }
   }
   fn enter(log: &Arc<Mutex<Vec<Rec>>>, ev: Ev, probes: u32) -> usize {
     let seq_in = rt::seq();
@@ -92,10 +94,19 @@ impl Recorder {
     let (l1, l2, l3) = (self.log.clone(), self.log.clone(), self.log.clone());
     let p = self.probes;
     let (t1, t2, t3) = (self.token.clone(), self.token.clone(), self.token.clone());
+    let delays = self.next_delays_ns.clone();
     o.subscribe(
       move |x| {
         let _t = &t1;
         let i = Self::enter(&l1, Ev::Next(x), p);
+        if !delays.is_empty() {
+          let k = l1.lock().unwrap().iter().take(i + 1).filter(|r| matches!(r.ev, Ev::Next(_))).count() - 1;
+          if let Some(d) = delays.get(k) {
+            if *d > 0 {
+              rt::thread::sleep(std::time::Duration::from_nanos(*d));
+            }
+          }
+        }
         Self::leave(&l1, i);
       },
       move |e| {
@@ -190,6 +201,7 @@ pub struct Emit {
   pub sub_after: bool,
   pub task: usize,
   pub t: u64,
+  pub t_start: u64,
 }
 
 #[derive(Default)]
@@ -201,6 +213,7 @@ pub struct SrcLog {
 /// emit one step through `o`, recording stamps and the `is_subscribed` probe around it
 pub fn emit(o: &Observer<'static, Val>, sub: usize, step: &Step, log: &Arc<Mutex<SrcLog>>, token: &Option<Token>) {
   let seq_start = rt::seq();
+  let t_start = rt::now_ns();
   let sub_before = o.is_subscribed();
   match step {
     Step::N(i) => o.next(match token {
@@ -221,6 +234,7 @@ pub fn emit(o: &Observer<'static, Val>, sub: usize, step: &Step, log: &Arc<Mutex
     sub_after,
     task: rt::task_id().unwrap_or(0),
     t: rt::now_ns(),
+    t_start,
   });
 }
 
